@@ -24,6 +24,7 @@ fn dispatch(op: &str, args: &[Sexp]) -> String {
         "f.dec" => crate::props::c15::op_dec(args),
         "gds.write" => crate::gdsio::op_write(args),
         "gds.read" | "gds.c03" => crate::gdsio::op_read(args),
+        "lefraw.import" => crate::props::c16::op_import(args),
         "tf.apply" => crate::props::c12::op_apply(args),
         "tf.general" => crate::props::c12::op_general(args),
         "raw.flatten" => crate::props::c12::op_flatten(args),
